@@ -6,6 +6,7 @@ programs parse and ground is decided with the real clingo / telingo on every out
 import Cnl2aspModel.Compiler.Value
 import Cnl2aspModel.Cnl.Safety
 import Cnl2aspModel.Asp.GramLemmas
+import Cnl2aspModel.Asp.PrintProgAtom
 import Cnl2aspModel.Generated.Tables
 
 namespace Cnl2aspModel.Value
@@ -137,6 +138,10 @@ theorem C06_rule_syntax (r : Rule) (h : wfRule r = true) : Stmt (toks (ruleP non
 /-- a whole encoding (constant directives, program parts, rules) prints to a program of the grammar -/
 theorem C06_program_syntax (e : Encoding) (h : (e.programs.all fun p => p.rules.all wfRule) = true) :
     Prog (toks (encodingP none e)) := prog_of_encoding e h
+
+/-- the program-level printer model and the atom-level model of C14 print the same default-mode atoms: the pieces of an atom
+concatenate to `PrintAtom.printFlat`, the string the theorems of C14 (no argument dropped, flattening) speak about -/
+theorem C06_atoms_are_C14_atoms (a : Atom) : text (atomPieces a) = printFlat a := atomPieces_text a
 
 /-- the symbols of the compiler's own tables (regenerated from the current source before every build: ASPOperation.operators,
 ASPTemporalOperation.asp_temporal_operators, ASPAggregate.symbols) are symbols of the grammar: every comparison / arithmetic
